@@ -677,6 +677,7 @@ func runWriters(c *WCase) (st wStats, err error) {
 		accepted           []string
 		refused            string
 		journal, published int
+		pubRecords         int // number of records the group published (trace)
 		failed             bool
 		acks               int
 		ended              string
@@ -728,6 +729,7 @@ func runWriters(c *WCase) (st wStats, err error) {
 			cur.failed = true
 		case "published":
 			cur.published++
+			cur.pubRecords = e.n
 		case "ack-sent":
 			cur.acks++
 		case "release", "handoff":
@@ -772,6 +774,21 @@ func runWriters(c *WCase) (st wStats, err error) {
 		lr := results[g.leader]
 		if lr == nil || !lr.done {
 			continue // e.g. the racer's own internal writes
+		}
+		nrec := func(r *result) int {
+			if len(r.keys) == 0 {
+				return 1 // a Delete
+			}
+			return len(r.keys)
+		}
+		want := nrec(lr)
+		for _, k := range g.accepted {
+			if r := results[k]; r != nil {
+				want += nrec(r)
+			}
+		}
+		if g.published == 1 && g.pubRecords != want {
+			return st, fmt.Errorf("the group of %s (merged: %v) published %d records, its members wrote %d: a writer's records were duplicated or dropped", g.leader, g.accepted, g.pubRecords, want)
 		}
 		for _, k := range g.accepted {
 			r := results[k]
